@@ -215,6 +215,12 @@ impl Prop for C05 {
     fn id(&self) -> &'static str {
         "C05"
     }
+    fn timeout(&self, tier: Tier) -> std::time::Duration {
+        match tier {
+            Tier::Quick => std::time::Duration::from_secs(2700),
+            Tier::Thorough => std::time::Duration::from_secs(6 * 3600),
+        }
+    }
     fn cases(&self, tier: Tier) -> u64 {
         match tier {
             Tier::Quick => 70_000,
